@@ -3,6 +3,7 @@ package c12
 import (
 	"encoding/json"
 	"fmt"
+	"strings"
 	"testing"
 	"time"
 
@@ -142,14 +143,22 @@ func checkTagRouting(c tagCase) (nt bool, v *verdict2) {
 			if sim.IsBackground(e) {
 				continue
 			}
+			// only the entries of this very command count: a node's port may have belonged, moments ago, to a node of another
+			// check's world which that check killed, and its proxy may still be knocking (seen once: a foreign SCAN)
+			if len(e.Args) != len(args) || !strings.EqualFold(string(e.Args[0]), args[0]) || string(e.Args[len(e.Args)-1]) != args[len(args)-1] {
+				continue
+			}
 			if first && e.Node != owner {
-				return nt, &verdict2{"not-routed-to-slot-owner", fmt.Sprintf("step %d %v: key %q has tag %q, slot %d, owned by node %d all along; the command was sent to node %d first (outcome there: %s). Keys sharing a hash tag must reach the same node",
-					si, args, k, tag, slot, owner, e.Node, e.Outcome)}
+				return nt, &verdict2{"not-routed-to-slot-owner", fmt.Sprintf("step %d %v: key %q has tag %q, slot %d, owned by node %d all along; the first client command logged after it was sent is %s at node %d (outcome there: %s). Keys sharing a hash tag must reach the same node",
+					si, args, k, tag, slot, owner, sim.ArgsString(e.Args), e.Node, e.Outcome)}
 			}
 			first = false
 			if e.Outcome == "moved" {
 				return nt, &verdict2{"sent-to-a-node-that-answers-moved", fmt.Sprintf("step %d %v: key %q (slot %d, owner node %d all along) was sent to node %d, which answered MOVED", si, args, k, slot, owner, e.Node)}
 			}
+		}
+		if first {
+			return nt, &verdict2{"not-routed-to-slot-owner", fmt.Sprintf("step %d %v: answered %s, but no node received this command as the client sent it (owner of slot %d: node %d)", si, args, got, slot, owner)}
 		}
 	}
 	if m1, _ := w.Redirects(); m1 != m0 {
